@@ -89,16 +89,19 @@ def _corpus(s, kw):
     sents = []
     for i in range(s):
         two = kw["t%d" % (i + 1)]
-        toks = [("T", "w%d" % (i + 1), "P", "HD", "--", "--", 1)]
+        toks = [("T", "w\u00e4%d" % (i + 1), "P", "HD", "--", "--", 1)]
         if two:
             toks.append(("T", "v%d" % (i + 1), "Q", "NK", "--", "--", 2))
         sents.append((i + 1, ("N", "VROOT", "--", (("N", "NP", "SB", tuple(toks)),))))
     return sents
 
 
-def _args(dest, df, split, trans, params):
+DENC = ["utf-8", "latin-1"]
+
+
+def _args(dest, df, split, trans, params, de=0):
     return argparse.Namespace(src="c.export", dest=dest, counting=100, trans=trans, params=params, src_format="export",
-                              src_enc="utf-8", src_opts=["quiet"], dest_format=df, dest_enc="utf-8", dest_opts=[], split=split)
+                              src_enc="utf-8", src_opts=["quiet"], dest_format=df, dest_enc=DENC[de], dest_opts=[], split=split)
 
 
 def _body(fmt, text):
@@ -112,7 +115,7 @@ def _body(fmt, text):
     return text
 
 
-def distribute(s, df, sp, flt, **kw):
+def distribute(s, df, sp, flt, de=0, **kw):
     stubs.install()
     sents = _corpus(s, kw)
     stubs.put("c.export", enc_export(sents))
@@ -123,10 +126,10 @@ def distribute(s, df, sp, flt, **kw):
     kept = [x for x in sents if not (flt and len(spec_tokens(x[1])) > 1)]
     spec = SPECS[sp]
     try:
-        transform.run(_args("u.out", fmt, "", trans, params))
+        transform.run(_args("u.out", fmt, "", trans, params, de))
     except Exception as e:      # noqa
         return "unsplit run failed: %s: %s" % (type(e).__name__, e)
-    whole, prob = decode_file(fmt, stubs.get("u.out"))
+    whole, prob = decode_file(fmt, stubs.MemFS.files["u.out"] if fmt == "tigerxml" else stubs.get("u.out", DENC[de]))
     if prob:
         return "unsplit %s output does not decode: %s" % (fmt, prob)
     parts_exp = None
@@ -142,7 +145,7 @@ def distribute(s, df, sp, flt, **kw):
     except Exception:       # noqa
         parts_exp = None
     try:
-        transform.run(_args("s.out", fmt, spec, trans, params))
+        transform.run(_args("s.out", fmt, spec, trans, params, de))
     except ValueError as e:
         if parts_exp is None:
             return ""       # more trees demanded than exist: rejected
@@ -159,8 +162,11 @@ def distribute(s, df, sp, flt, **kw):
     for i, nme in enumerate(names):
         if nme not in stubs.MemFS.files:
             return "part %d was not written" % i
-        text = stubs.get(nme)
-        items, prob = decode_file(fmt, text)
+        try:
+            text = stubs.get(nme, DENC[de])
+        except UnicodeError as e:
+            return "part %d is not valid %s: %s" % (i, DENC[de], e)
+        items, prob = decode_file(fmt, stubs.MemFS.files[nme] if fmt == "tigerxml" else text)
         if prob:
             return "part %d is not a complete %s file: %s -- %r" % (i, fmt, prob, text[:80])
         if len(items) != parts_exp[i]:
@@ -169,7 +175,7 @@ def distribute(s, df, sp, flt, **kw):
         # each part is accepted by the corresponding reader with the right number of trees
         if fmt != "terminals":
             try:
-                got = list(getattr(treeinput, fmt)(nme, "utf-8", quiet=True))
+                got = list(getattr(treeinput, fmt)(nme, DENC[de], quiet=True))
             except Exception as e:      # noqa
                 return "part %d is rejected by the %s reader: %s: %s" % (i, fmt, type(e).__name__, e)
             if len(got) != parts_exp[i]:
@@ -184,12 +190,12 @@ def distribute(s, df, sp, flt, **kw):
     if cat != whole:
         return "the parts taken in order hold %r, the unsplit output %r" % (cat, whole)
     # the same command once more in the same process: same parts
-    first = [stubs.get(nme) for nme in names]
+    first = [stubs.MemFS.files[nme] for nme in names]
     try:
-        transform.run(_args("s2.out", fmt, spec, trans, params))
+        transform.run(_args("s2.out", fmt, spec, trans, params, de))
     except Exception as e:      # noqa
         return "second split run in the same process failed: %s: %s" % (type(e).__name__, e)
-    second = [stubs.get("s2.out.%d" % i) if ("s2.out.%d" % i) in stubs.MemFS.files else None for i in range(len(parts_exp))]
+    second = [stubs.MemFS.files["s2.out.%d" % i] if ("s2.out.%d" % i) in stubs.MemFS.files else None for i in range(len(parts_exp))]
     if second != first:
         return "a second split run in the same process writes %r, the first wrote %r" % (second, first)
     return ""
@@ -223,7 +229,8 @@ def conds(tier):
     for s in ([1, 2, 3] if q else [1, 2, 3, 4, 5, 6]):
         ts = [P("t%d" % i, "bool") for i in range(1, s + 1)]
         cs.append(Cond("distribute-s%d" % s, "harness.c17:distribute",
-                       ts + [P("df", "int", 0, 5), P("sp", "int", 0, len(SPECS)), P("flt", "bool")], fixed={"s": s},
+                       ts + [P("df", "int", 0, 5), P("sp", "int", 0, len(SPECS)), P("flt", "bool"), P("de", "int", 0, 2)], fixed={"s": s},
+                       pre=(["de == (sp + df) % 2"] if (q or s >= 4) else []),
                        shard=["df"] + (["flt"] if s >= 3 else []) + (["t1"] if s >= 5 else []), timeout=600 if q else 3000,
                        functions=FUNCS[1:]))
     return cs
